@@ -37,6 +37,17 @@ finally:
     subprocess.run(["git", "-C", "/repo", "checkout", "--", "."], check=True)
     shutil.rmtree("/tmp/asl-seed-ev", ignore_errors=True)
 
+first_pass = None
+fp = os.path.join(seed, "firstpass.json")
+if os.path.exists(fp):
+    try:
+        d = json.load(open(fp))
+        first_pass = {"note": "checks that fired when this change was first evaluated, before any rule was strengthened for it",
+                      "fired": d.get("fired"), "caught_by_target": d.get("caught_by_target")}
+    except Exception:
+        first_pass = None
+
+
 def first_para(text, head):
     m = re.search(head, text, re.I)
     return text[m.end():m.end() + 600].strip().split("\n\n")[0] if m else ""
@@ -59,6 +70,7 @@ meta = {
     ],
     "checks_reporting_violation": {"scratch_copy": ev["fired"], "repo_apply": fired_repo},
     "analysis_errors": ev["analysis_errors"],
+    "first_pass": first_pass,
     "caught_by_target_property_check": prop in fired_repo,
     "first_reports": ev["details"].get(prop, [])[:3],
 }
